@@ -1454,8 +1454,31 @@ func (e *Engine) foldCond(fc *FrameCtx, cond ssa.Value) (bool, bool) {
 	}
 	// a constant handed down through explored frames decides the branch
 	constOf := func(v ssa.Value) *ssa.Const {
-		av, _ := e.ArgValue(fc, v)
-		if k, ok := stripConv(av).(*ssa.Const); ok && k.Value != nil {
+		// parameters only (through the explored frames): a local cell with one store may
+		// still hold its zero value when the branch is reached
+		cfc := fc
+		for i := 0; i < 12; i++ {
+			v = stripConv(v)
+			pr, ok := v.(*ssa.Parameter)
+			if !ok {
+				break
+			}
+			c := e.ctxOfOr(cfc, pr.Parent())
+			if c == nil || c.args == nil || c.parent == nil || c.fn != pr.Parent() {
+				break
+			}
+			idx := -1
+			for j, q := range c.fn.Params {
+				if q == pr {
+					idx = j
+				}
+			}
+			if idx < 0 || idx >= len(c.args) {
+				break
+			}
+			v, cfc = c.args[idx], c.parent
+		}
+		if k, ok := v.(*ssa.Const); ok && k.Value != nil {
 			return k
 		}
 		return nil
